@@ -180,7 +180,7 @@ func c02Body(x *engine.Exec, c *DocCase, full int, edited bool) {
 				skip = len(rec.Evs)
 			}
 			for _, ch := range chunks {
-				scratch := append([]byte(nil), doc[ch[0]:ch[1]]...)
+				scratch := exact(doc[ch[0]:ch[1]])
 				_, err := w.Write(scratch)
 				for i := range scratch {
 					scratch[i] = 0xAA
